@@ -86,20 +86,20 @@ pub fn continuation_check(run: &mut Run) -> (u64, u64) {
                     for limit in [1usize, 2, 3, 6, 50] {
                         runs += 2;
                         let a = run_real(&with, limit);
-                        // the skipped instruction may or may not consume a step: compare with Q under limit and limit-1
-                        let b1 = run_real(&without, limit);
+                        // the skipped instruction is taken from the exec stack like a no-op, i.e. it uses up
+                        // one step: [i] ++ Q under limit L must end like Q under limit L-1
                         let b0 = run_real(&without, limit.saturating_sub(1));
                         let same = |x: &RealFinal, y: &RealFinal| match (x, y) {
                             (RealFinal::Done(s), RealFinal::Done(t)) => observe(s) == observe(t),
                             (RealFinal::Aborted(s, _), RealFinal::Aborted(t, _)) => observe(s) == observe(t),
                             _ => false,
                         };
-                        if !(same(&a, &b1) || same(&a, &b0)) {
+                        if !same(&a, &b0) {
                             if viols.len() < 10 {
                                 viols.push((
                                     format!("continue-after-skip/{name}"),
                                     format!(
-                                        "{name} fails recoverably in {} but running [{name}] ++ Q with limit {limit} does not end like Q alone (Q = {:?})",
+                                        "{name} fails recoverably in {} but running [{name}] ++ Q with limit {limit} does not end like Q alone under limit-1 (Q = {:?})",
                                         rstate_json(&without),
                                         q.iter().map(prog_compact).collect::<Vec<_>>()
                                     ),
